@@ -698,4 +698,115 @@ example : exprFunction (algTab : FunTab ℚ) [["x"], ["arr", "a"]] [] [] (.idx "
   simp
 
 end field
+section field
+variable {K : Type} [Field K]
+
+/-- **exprFunction_withUser_inline**: the generated function of an expression with (closed) user
+functions computes, under the base table, the prepared formula with the user functions' bodies
+substituted for their calls -/
+theorem exprFunction_withUser_inline (T : FunTab K) (defs : List UDef)
+    (hdefs : ∀ d ∈ defs, d.closed = true) (sig : List (List String))
+    (consts : List (String × Val K)) (repl : List (String × String)) (e : Expr)
+    (args : List (Val K)) (v : K)
+    (h : exprFunction (withUser T defs) sig consts repl e args = some v) :
+    v = eval T (callEnv sig consts args) (inlineUser defs (prepare sig repl e)) := by
+  unfold exprFunction at h
+  split_ifs at h
+  rw [← withUser_inline T defs hdefs]
+  exact (Option.some.inj h).symm
+
+/-- `f(x1) + c` with `f(u) = u² + 1`, the synonym `x1` of `x`, the constant `c = 10`, at `x = 3` -/
+example : exprFunction (withUser (algTab : FunTab ℚ)
+      [⟨"f", ["u"], .add (.powI (.var "u") 2) (.num 1)⟩]) [["x", "x1"]] [("c", Val.sc 10)] []
+      (.add (.call1 "f" (.var "x1")) (.var "c")) [Val.sc 3] = some 20 := by
+  have hacc : ∃ v, exprFunction (withUser (algTab : FunTab ℚ)
+      [⟨"f", ["u"], .add (.powI (.var "u") 2) (.num 1)⟩]) [["x", "x1"]] [("c", Val.sc 10)] []
+      (.add (.call1 "f" (.var "x1")) (.var "c")) [Val.sc 3] = some v := by
+    unfold exprFunction
+    rw [if_pos (by decide)]
+    exact ⟨_, rfl⟩
+  obtain ⟨v, hv⟩ := hacc
+  rw [hv, exprFunction_withUser_inline _ _ (by decide) _ _ _ _ _ v hv]
+  have : inlineUser [⟨"f", ["u"], .add (.powI (.var "u") 2) (.num 1)⟩]
+      (prepare [["x", "x1"]] [] (.add (.call1 "f" (.var "x1")) (.var "c"))) =
+      .add (.add (.powI (.var "x") 2) (.num 1)) (.var "c") := by decide
+  rw [this]
+  simp [eval, callEnv, bindEnv, Env.bind1, Val.toSc, sigVars]
+  norm_num
+
+/-- quotient rule against Mathlib's formal derivative: for a quotient of two expressions of the
+polynomial fragment denoting the polynomials `P`, `Q` in `x`, the value of the model's derivative
+is `(P' Q - P Q') / Q²` at the point (every field; a vanishing `Q` gives 0 on both sides) -/
+theorem diff_quotient_polynomial (T : FunTab K) (x : String) (env : Env K) (p q : Expr)
+    (hp : polyFrag p = true) (hq : polyFrag q = true) :
+    eval T env (diff x (.div p q)) =
+      ((Polynomial.derivative (toPoly T x env p)).eval (env.sc x) * (toPoly T x env q).eval (env.sc x)
+        - (toPoly T x env p).eval (env.sc x) * (Polynomial.derivative (toPoly T x env q)).eval (env.sc x))
+      / ((toPoly T x env q).eval (env.sc x)) ^ 2 := by
+  rw [toPoly_eval T x env _ p hp, toPoly_eval T x env _ q hq, Env.set_self',
+    ← diff_eq_polynomial_derivative T x env p hp, ← diff_eq_polynomial_derivative T x env q hq]
+  simp [diff, eval, zpow_ofNat]
+
+example : polyFrag (.add (.powI (.var "x") 2) (.num 1)) = true ∧ polyFrag (.var "x") = true := by
+  decide
+
+/-- the environment of a call, read at a signature variable: the `k`-th variable (first
+occurrence) denotes the `k`-th argument - its number as a scalar symbol, its entries as an
+indexed symbol -/
+theorem callEnv_arg (sig : List (List String)) (consts : List (String × Val K))
+    (args : List (Val K)) (k : Nat) (n : String) (a : Val K)
+    (hn : (sigVars sig)[k]? = some n) (hfirst : ∀ j < k, (sigVars sig)[j]? ≠ some n)
+    (ha : args[k]? = some a) :
+    (callEnv sig consts args).sc n = a.toSc ∧ (callEnv sig consts args).ix n = a.at := by
+  have hk : k < (sigVars sig).length := by
+    rcases Nat.lt_or_ge k (sigVars sig).length with h1 | h1
+    · exact h1
+    · rw [List.getElem?_eq_none h1] at hn; simp at hn
+  have hk' : k < args.length := by
+    rcases Nat.lt_or_ge k args.length with h1 | h1
+    · exact h1
+    · rw [List.getElem?_eq_none h1] at ha; simp at ha
+  exact bindEnv_get (sigVars sig ++ consts.map Prod.fst) (args ++ consts.map Prod.snd)
+    (defaultEnv : Env K) k n a
+    (by rw [List.getElem?_append_left hk]; exact hn)
+    (by rw [List.getElem?_append_left hk']; exact ha)
+    (fun j hj => by rw [List.getElem?_append_left (Nat.lt_trans hj hk)]; exact hfirst j hj)
+
+/-- ... and at a constant: with as many arguments as signature entries, a constant whose name is
+not a signature variable (first entry of that name) denotes its value -/
+theorem callEnv_const (sig : List (List String)) (consts : List (String × Val K))
+    (args : List (Val K)) (k : Nat) (n : String) (c : Val K) (hlen : args.length = sig.length)
+    (hc : consts[k]? = some (n, c)) (hsig : n ∉ sigVars sig)
+    (hfirst : ∀ j < k, (consts.map Prod.fst)[j]? ≠ some n) :
+    (callEnv sig consts args).sc n = c.toSc ∧ (callEnv sig consts args).ix n = c.at := by
+  have hl : (sigVars sig).length = sig.length := by simp [sigVars]
+  apply bindEnv_get (sigVars sig ++ consts.map Prod.fst) (args ++ consts.map Prod.snd)
+    (defaultEnv : Env K) (sig.length + k) n c
+  · rw [List.getElem?_append_right (by omega), hl]
+    simp [hc]
+  · rw [List.getElem?_append_right (by omega), hlen]
+    simp [hc]
+  · intro j hj
+    by_cases hjs : j < (sigVars sig).length
+    · rw [List.getElem?_append_left hjs]
+      intro h
+      exact hsig (List.mem_of_getElem? h)
+    · rw [List.getElem?_append_right (by omega)]
+      exact hfirst _ (by omega)
+
+example : (callEnv [["x"], ["arr", "a"]] [("c", Val.sc (4 : ℚ))] [Val.sc 3, Val.vec [5, 7, 9]]).ix
+    "arr" 2 = 9 := by
+  rw [(callEnv_arg [["x"], ["arr", "a"]] [("c", Val.sc (4 : ℚ))] [Val.sc 3, Val.vec [5, 7, 9]] 1
+    "arr" (Val.vec [5, 7, 9]) (by decide)
+    (by intro j hj; have h0 : j = 0 := by omega
+        subst h0; decide) rfl).2]
+  simp [Val.at]
+
+example : (callEnv [["x"], ["arr", "a"]] [("c", Val.sc (4 : ℚ))] [Val.sc 3, Val.vec [5, 7, 9]]).sc
+    "c" = 4 := by
+  rw [(callEnv_const [["x"], ["arr", "a"]] [("c", Val.sc (4 : ℚ))] [Val.sc 3, Val.vec [5, 7, 9]] 0
+    "c" (Val.sc 4) rfl rfl (by decide) (by intro j hj; omega)).1]
+  simp [Val.toSc]
+
+end field
 end PdeVerif.Ex
